@@ -59,6 +59,12 @@ type Contract struct {
 	Callees  map[string]*Contract // assumed contracts of dynamic callees (function-typed fields, parameters), by source name
 	Params   []string // explicit parameter names (trusted specs for functions without source names)
 	Used     bool
+	Holds    []HoldsClause // holds <monitor> <owner expr>: the caller holds the lock for the whole call
+}
+
+type HoldsClause struct {
+	Mon   string
+	Owner Expr
 }
 
 // GhostVar is a specification-only variable of the unit, updated by OnCall rules.
@@ -107,6 +113,13 @@ type Monitor struct {
 	Invariants []Clause
 	Trans      []Clause
 	Assumes    []Clause // assumptions made at entry of every action (listed as trusted)
+	// lock-style monitors: "monitor <name> lock <Type>.<mutexField> as <var>": the critical sections are the code
+	// between <x>.<mutexField>.Lock() and Unlock(); <var> names the owner object x in invariants and transitions.
+	Kind          string // "via" or "lock"
+	OwnerType     string
+	MuField       string
+	TrustSections []string // functions whose critical sections are not verified (listed as trusted)
+	Unpublished   []string // functions allowed to touch protected fields of an object they have not yet published
 	File       string
 	Line       int
 }
@@ -137,6 +150,7 @@ var clauseKeywords = map[string]bool{
 	"ghost": true, "loop": true, "nopanic": true, "trusted": true, "panics": true, "track": true, "global-invariant": true,
 	"monitor": true, "invariant": true, "transition": true, "lemma": true, "axiom": true, "inline": true, "assert": true,
 	"props": true, "params": true, "protects": true, "snapshot": true, "abstract": true, "callee": true, "ghostvar": true, "on": true, "state": true, "closeonly": true, "assume": true, "freshcounter": true,
+	"trust-section": true, "unpublished": true, "holds": true,
 }
 
 type rawClause struct {
@@ -322,13 +336,32 @@ func (db *SpecDB) LoadSpecFile(path, pkgPath string) error {
 				rest = strings.TrimSpace(rest[:j])
 			}
 			fs := strings.Fields(rest)
-			m := &Monitor{Name: fs[0], PkgPath: pkgPath, File: path, Line: rc.line, Props: props}
+			m := &Monitor{Name: fs[0], PkgPath: pkgPath, File: path, Line: rc.line, Props: props, Kind: "via"}
 			for i := 1; i < len(fs); i++ {
 				if fs[i] == "via" && i+1 < len(fs) {
 					m.Via = fs[i+1]
 					m.ViaKey = qualify(fs[i+1], pkgPath)
 					i++
 				}
+				if fs[i] == "lock" && i+1 < len(fs) {
+					// lock <Type>.<field> as <var>
+					m.Kind = "lock"
+					tf := fs[i+1]
+					j := strings.LastIndex(tf, ".")
+					if j < 0 {
+						return fmt.Errorf("%s:%d: monitor lock needs <Type>.<mutexField>", path, rc.line)
+					}
+					m.OwnerType, m.MuField = tf[:j], tf[j+1:]
+					m.Via = tf
+					i++
+					if i+2 < len(fs) && fs[i+1] == "as" {
+						m.StateVar = fs[i+2]
+						i += 2
+					}
+				}
+			}
+			if m.Kind == "lock" && m.StateVar == "" {
+				return fmt.Errorf("%s:%d: monitor lock needs 'as <var>'", path, rc.line)
 			}
 			db.Monitors = append(db.Monitors, m)
 			curMon, cur = m, nil
@@ -349,6 +382,17 @@ func (db *SpecDB) LoadSpecFile(path, pkgPath string) error {
 				return fmt.Errorf("%s:%d: %v", path, rc.line, err)
 			}
 			curMon.StateExpr = e
+		case "trust-section", "unpublished":
+			if curMon == nil {
+				return fmt.Errorf("%s:%d: %s outside monitor", path, rc.line, rc.kw)
+			}
+			for _, p := range strings.Split(rc.rest, ",") {
+				if rc.kw == "trust-section" {
+					curMon.TrustSections = append(curMon.TrustSections, qualify(strings.TrimSpace(p), pkgPath))
+				} else {
+					curMon.Unpublished = append(curMon.Unpublished, qualify(strings.TrimSpace(p), pkgPath))
+				}
+			}
 		case "closeonly":
 			if curMon == nil {
 				return fmt.Errorf("%s:%d: closeonly outside monitor", path, rc.line)
@@ -457,6 +501,16 @@ func (db *SpecDB) LoadSpecFile(path, pkgPath string) error {
 					}
 					cur.Modifies = append(cur.Modifies, e)
 				}
+			case "holds":
+				fs := strings.SplitN(strings.TrimSpace(rc.rest), " ", 2)
+				if len(fs) != 2 {
+					return fmt.Errorf("%s:%d: holds needs '<monitor> <owner expression>'", path, rc.line)
+				}
+				e, err := ParseExpr(fs[1])
+				if err != nil {
+					return fmt.Errorf("%s:%d: %v", path, rc.line, err)
+				}
+				cur.Holds = append(cur.Holds, HoldsClause{Mon: fs[0], Owner: e})
 			case "pure":
 				cur.Pure = true
 			case "trusted":
